@@ -61,7 +61,10 @@ Constructs == <<
   C("capml8",     "$(ls\n        -l)",        "__xonsh__.subproc_captured('ls', '-l')", FALSE, TRUE),
   C("capml9",     "$(ls\n         -l)",       "__xonsh__.subproc_captured('ls', '-l')", FALSE, TRUE),
   C("hidml",      "![ls -l\n      x]",        "__xonsh__.subproc_captured_hiddenobject('ls', '-l', 'x')", FALSE, TRUE),
-  C("capcont",    "$(ls \\\n   -l)",          "__xonsh__.subproc_captured('ls', '-l')", FALSE, TRUE)
+  C("capcont",    "$(ls \\\n   -l)",          "__xonsh__.subproc_captured('ls', '-l')", FALSE, TRUE),
+  C("envcompat",  "$~ufb01~le",                "__xonsh__.env['~ufb01~le']", TRUE, TRUE),
+  C("capcompat",  "$(cat ~ufb01~le.txt ~u00b5~s)", "__xonsh__.subproc_captured('cat', '~ufb01~le.txt', '~u00b5~s')", FALSE, TRUE),
+  C("envexprf",   "${f'{p}_HOME'}",            "__xonsh__.env[str(f'{p}_HOME')]", TRUE, TRUE)
 >>
 
 \* pure Python context: same text on both sides
